@@ -121,7 +121,19 @@ func genC19(t *rapid.T) C19Case {
 	n := rapid.IntRange(1, 7).Draw(t, "n-types")
 	c := C19Case{SepLen: rapid.IntRange(3, 90).Draw(t, "sep-len"), Blank: rapid.Bool().Draw(t, "blank-lines"), Hdr: -1}
 	for i := 0; i < n; i++ {
-		c.Types = append(c.Types, GType{Pkg: rapid.SampledFrom(pkgs).Draw(t, "pkg"), Name: fmt.Sprintf("T%d%s", i, rapid.SampledFrom([]string{"", "Foo", "_x"}).Draw(t, "suffix"))})
+		// short names come from a small pool so that different packages define types with the same
+		// short name; (package, name) stays unique
+		g := GType{Pkg: rapid.SampledFrom(pkgs).Draw(t, "pkg"), Name: rapid.SampledFrom([]string{"Point", "Pose", "Item", "T_x"}).Draw(t, "short-name")}
+		for clash := true; clash; {
+			clash = false
+			for _, o := range c.Types {
+				if o.Pkg == g.Pkg && o.Name == g.Name {
+					clash = true
+					g.Name += fmt.Sprint(i)
+				}
+			}
+		}
+		c.Types = append(c.Types, g)
 	}
 	if n > 1 && rapid.Bool().Draw(t, "with-header") {
 		c.Hdr = n - 1
